@@ -97,6 +97,7 @@ def run(ctx: Ctx) -> None:
     lengths(ctx, rows, ok_base, results)
     slots(ctx, rows, ok_pre, results, pre_modes, py_to_rs)
     dispatch(ctx, rs)
+    feature_parity(ctx, py, rs, rows, ok_base)
     ctx.extra["exhaustive"] = True
 
 
@@ -192,3 +193,105 @@ def dispatch(ctx: Ctx, rs: RustProgram) -> None:
         if not (direct or calls & helpers_set_pc or diverges):
             ctx.violation("C06.4/arm-sets-pc", key_of(rs_file(), "execute_with", f"arm {sorted(a['kinds'])}"), f"arm for {sorted(a['kinds'])} neither sets PC nor calls a helper that does", f"{rs_file()}:{a['ln']}")
     ctx.instance("C06.4/dispatch", "instruction kinds with a dedicated arm; arms that move PC (directly or via helper)", n, 80)
+
+
+# ---------------------------------------------------------------------------
+# sibling feature tables: facts both cores must agree on and that are visible in the shape of the code
+
+def feature_parity(ctx: Ctx, py: PyProgram, rs: RustProgram, rows: dict, ok_base: list) -> None:
+    import ast as _ast
+    from ..pyfacts import unparse
+    from ..rsfacts import RsInterp
+    rel = rs_file()
+    n = 0
+    # (a) INC/DEC on a register: the effective operand width (result mask / Z test) per register
+    it = RsInterp(rs, isa.EVAL_RS)
+    reg_sizes = {str(k): v for k, v in py.value(isa.OPCODES_PY, "REG_SIZES").items()}
+    from ..isa_sweep import sweep as _sweep
+    lifted, _p, _u = _sweep(stages=("render", "lift"), with_prefixes="none")
+    seen = set()
+    for c in lifted:
+        r = rows[c.opcode]
+        if r.cls not in ("INC", "DEC") or c.status != "ok" or not r.ops or r.ops[0].ctor != "Reg3":
+            continue
+        regs = [t for k, t in c.tokens if k == "TReg"]
+        if len(regs) != 1 or (r.cls, regs[0]) in seen:
+            continue
+        seen.add((r.cls, regs[0]))
+        n += 1
+        il = " ".join(c.il)
+        py_bits = 20 if "1048575" in il else 8 * reg_sizes.get(regs[0], 0)
+        try:
+            rs_bits = it.call("LlamaExecutor::reg3_bits", [("sym", f"RegName::{regs[0]}")])
+        except Exception as e:  # noqa: BLE001
+            raise AnalysisError(f"reg3_bits({regs[0]}) left the foldable fragment: {e}")
+        if py_bits != rs_bits:
+            ctx.violation("C06.6/incdec-width", key_of(isa.INSTR_PY, f"{r.cls}.lift", f"register {regs[0]}"),
+                          f"{r.cls} {regs[0]}: the Python lift computes result and Z over {py_bits} bits, the Rust core (reg3_bits) over {rs_bits} bits - e.g. {regs[0]} = 0xFFFFF wraps to 0 and sets Z in one core only",
+                          f"{isa.OPTABLE}:{r.ln}")
+    ctx.instance("C06.6/incdec-width", "INC/DEC r3: effective width per register, Python IL vs Rust reg3_bits", n, 16)
+    # (b) multi-byte arithmetic: is the incoming carry used for the first byte; direction; BCD; subtract
+    feats_py: dict[str, dict] = {}
+    mod = py.module(isa.INSTR_PY)
+    for cname in ("ADCL", "SBCL", "DADL", "DSBL"):
+        c = py.cls(mod, cname)
+        if c is None or "lift" not in c.methods:
+            raise AnalysisError(f"{cname}.lift not found")
+        calls = [x for x in _ast.walk(c.methods["lift"]) if isinstance(x, _ast.Call) and unparse(x.func) == "lift_multi_byte"]
+        if len(calls) != 1:
+            raise AnalysisError(f"{cname}.lift: expected one lift_multi_byte call")
+        kw = {k.arg: unparse(k.value) for k in calls[0].keywords}
+        feats_py[cname] = {"carry_in": kw.get("clear_carry", "False") != "True", "reverse": kw.get("reverse", "False") == "True", "bcd": kw.get("bcd", "False") == "True", "subtract": kw.get("subtract", "False") == "True"}
+    feats_rs: dict[str, dict] = {}
+    helper = rs.fn(isa.EVAL_RS, "LlamaExecutor::execute_multi_byte_binary")
+    hinit = [x for x in walk(helper.body) if x.get("k") == "let" and x["pat"].get("name") == "carry"]
+    if len(hinit) != 1:
+        raise AnalysisError("execute_multi_byte_binary: `let mut carry = ..` not found")
+    h_carry_in = "get_reg(RegName::FC)" in expr_text(hinit[0]["init"]).replace(" ", "")
+    h_neg = any(x.get("k") == "unary" and x.get("op") == "-" for c in walk(helper.body) if c.get("k") == "call" and expr_text(c["f"]).endswith("advance_internal_addr_signed") for x in walk(c))
+    for kind, cname, sub in (("Adc", "ADCL", False), ("Sbcl", "SBCL", True)):
+        feats_rs[cname] = {"carry_in": h_carry_in, "reverse": h_neg, "bcd": False, "subtract": None}
+    # subtract flag passed by the dispatch arms
+    ex = rs.fn(isa.EVAL_RS, "LlamaExecutor::execute_with")
+    for c in walk(ex.body):
+        if c.get("k") == "mcall" and c["m"] == "execute_multi_byte_binary":
+            pass
+    for arm in isa.rs_exec_arms(rs):
+        calls = [c for c in walk(arm["body"]) if c.get("k") == "mcall" and c["m"] == "execute_multi_byte_binary"]
+        if calls and len(arm["kinds"]) == 1:
+            kind = next(iter(arm["kinds"]))
+            cname = {"Adc": "ADCL", "Sbcl": "SBCL"}.get(kind)
+            if cname:
+                feats_rs[cname]["subtract"] = expr_text(calls[0]["args"][-1]) == "true"
+    darm = isa.rs_arm_for(rs, "Dadl")
+    dinit = [x for x in walk(darm["body"]) if x.get("k") == "let" and x["pat"].get("name") == "carry"]
+    if len(dinit) != 1 or dinit[0]["init"].get("k") != "match":
+        raise AnalysisError("Dadl/Dsbl arm: `let mut carry = match entry.kind {..}` not found")
+    d_neg = any(x.get("k") == "unary" and x.get("op") == "-" for c in walk(darm["body"]) if c.get("k") == "call" and expr_text(c["f"]).endswith("advance_internal_addr_signed") for x in walk(c))
+    for a in dinit[0]["init"]["arms"]:
+        pt = expr_text(a["pat"]) if a["pat"].get("k") != "p_path" else a["pat"].get("path", "")
+        txt = expr_text(a["body"]).replace(" ", "")
+        for kind, cname in (("Dadl", "DADL"), ("Dsbl", "DSBL")):
+            if kind in str(a["pat"]):
+                feats_rs[cname] = {"carry_in": "get_reg(RegName::FC)" in txt, "reverse": d_neg, "bcd": True, "subtract": kind == "Dsbl"}
+    for cname in ("ADCL", "SBCL", "DADL", "DSBL"):
+        if cname not in feats_rs:
+            raise AnalysisError(f"Rust features of {cname} not recovered")
+        for f in ("carry_in", "reverse", "bcd", "subtract"):
+            n += 1
+            if feats_rs[cname][f] is None:
+                raise AnalysisError(f"Rust feature {f} of {cname} not recovered")
+            if feats_py[cname][f] != feats_rs[cname][f]:
+                what = {"carry_in": "uses the incoming carry for the first byte", "reverse": "walks the operands downwards", "bcd": "is decimal", "subtract": "subtracts"}[f]
+                ctx.violation("C06.6/multibyte-feature", key_of(isa.INSTR_PY, f"{cname}.lift", f),
+                              f"{cname}: Python {'' if feats_py[cname][f] else 'does not '}{what.replace('uses', 'use').replace('walks', 'walk').replace('is ', 'be ').replace('subtracts', 'subtract') if not feats_py[cname][f] else what}, "
+                              f"the Rust core {'does' if feats_rs[cname][f] else 'does not'} ({f}: Python {feats_py[cname][f]}, Rust {feats_rs[cname][f]})", f"{isa.INSTR_PY}")
+    ctx.extra["multibyte_features"] = {"python": feats_py, "rust": feats_rs}
+    ctx.instance("C06.6/multibyte-feature", "ADCL/SBCL/DADL/DSBL: carry-in, direction, BCD, subtract - Python lift arguments vs Rust arms", 16, 16)
+    # (c) control-transfer target formulas at a page edge (shared with C05)
+    from .c05 import EDGE_ADDR, rust_formulas
+    from ..isa_sweep import Sweeper
+    sw = Sweeper()
+    edge = [sw.run_case(None, op, None, ("analyze", "lift"), addr=EDGE_ADDR) for op in (0x02, 0x03, 0x04, 0x05)]
+    rust_formulas(ctx, py, rs, rows, edge, addr=EDGE_ADDR, tag="@page-edge")
+    rust_formulas(ctx, py, rs, rows, [sw.run_case(None, op, None, ("analyze", "lift")) for op in (0x02, 0x03, 0x04, 0x05)])
